@@ -73,3 +73,25 @@ Theorem C02_verdict_reject_iff :
   forall c x, verdict_of c x = VReject <-> (tc c = None \/ exists t, tc c = Some t /\ ctx_admits x t = false).
 Proof. exact verdict_reject_iff. Qed.
 Print Assumptions C02_verdict_reject_iff.
+
+(* statement-level operand positions (repeat count, loop and branch conditions, both list literal forms, assignment to
+   an indexed target, counting loops with every counter x start x end x step class, range loops): the enumeration
+   all_stmts covers every statement cell, and whatever the checker admits is lowered to well-typed code *)
+Theorem C02_stmt_enumeration_complete : forall s : stmt, In s all_stmts.
+Proof. exact all_stmts_complete. Qed.
+Print Assumptions C02_stmt_enumeration_complete.
+
+Theorem C02_stmt_lowering_total :
+  forall s, tc_stmt s = true ->
+    exists code, lower_stmt s = SOk code /\ stmt_well_typed (SOk code) = true.
+Proof. exact stmt_lowering_total. Qed.
+Print Assumptions C02_stmt_lowering_total.
+
+Example C02_stmt_lowering_total_nonvacuous :
+  tc_stmt (SRepeat (TB BByte)) = true /\
+  lower_stmt (SRepeat (TB BByte)) =
+    SOk [IConv ZExt (Sc I8) (Sc I64); IStore (Sc I64) (Sc I64); IBinC (Sc I64); ICmpC (Sc I64); ICondBr (Sc I1)] /\
+  tc_stmt (SForStep (TB BZahl) (TB BByte) (TB BKomma) (TB BKomma)) = true /\
+  stmt_well_typed (lower_stmt (SForStep (TB BZahl) (TB BByte) (TB BKomma) (TB BKomma))) = true /\
+  tc_stmt (SListLit (TL BZahl) (TL BZahl)) = false.
+Proof. repeat split; reflexivity. Qed.
